@@ -59,9 +59,9 @@ theorem Scn.sorted {log keys org} (h : Scn log keys org) (k : Nat) (hk : k ∈ k
   keySorted_of_tiled log k (org k) (h.tiledK k hk)
 
 theorem Scn.above {log keys org} (h : Scn log keys org) (k : Nat) (hk : k ∈ keys) :
-    ∀ e ∈ log, e.seqKey = some k → org k < e.pos := by
+    ∀ e ∈ log, e.seqKey = some k → org k ≤ e.pos - e.count ∧ 0 ≤ e.count ∧ 0 < e.pos := by
   intro e he hek
-  exact (tiled_lower _ _ (h.tiledK k hk) e ((mem_seqLog log k e).2 ⟨he, hek⟩)).2
+  exact tiled_lower _ _ (h.tiledK k hk) e ((mem_seqLog log k e).2 ⟨he, hek⟩)
 
 /-! ### Queues -/
 
